@@ -55,7 +55,8 @@ def cases(tier, seed):
         for j, rc in enumerate(rcs):
             out, err = OUTPUTS[(idx + j) % len(OUTPUTS)]
             yield {'ending': ending, 'status': status, 'mode': mode, 'act_rc': rc, 'act_out': out, 'act_err': err,
-                   'k': 1 + (idx + j) % 3, 'xcheck': (idx % 97 == 0 and j == 0)}
+                   'k': 1 + (idx + j) % 3,
+                   'xcheck': (idx % (97 if tier == 'quick' else 19) == 0 and j == 0)}
 
 
 # ---------------------------------------------------------------------------------------------
